@@ -17,7 +17,7 @@ FIRST = {
  "C15-m1": "caught (R-STICKY)", "C15-m2": "missed", "C18-m1": "caught (R-SIBTREE)", "C18-m2": "missed", "C19-m1": "caught (R-ORDER)", "C19-m2": "missed",
 }
 import itertools
-for l in itertools.chain(open('/verif/seeded/ROUND2_FIRST_TRY.txt'), open('/verif/seeded/ROUND3_FIRST_TRY.txt'), open('/verif/seeded/ROUND4_FIRST_TRY.txt'), open('/verif/seeded/ROUND5_FIRST_TRY.txt'), open('/verif/seeded/ROUND6_FIRST_TRY.txt'), open('/verif/seeded/ROUND7_FIRST_TRY.txt'), open('/verif/seeded/ROUND8_FIRST_TRY.txt'), open('/verif/seeded/ROUND9_FIRST_TRY.txt'), open('/verif/seeded/ROUND10_FIRST_TRY.txt'), open('/verif/seeded/ROUND11_FIRST_TRY.txt')):
+for l in itertools.chain(open('/verif/seeded/ROUND2_FIRST_TRY.txt'), open('/verif/seeded/ROUND3_FIRST_TRY.txt'), open('/verif/seeded/ROUND4_FIRST_TRY.txt'), open('/verif/seeded/ROUND5_FIRST_TRY.txt'), open('/verif/seeded/ROUND6_FIRST_TRY.txt'), open('/verif/seeded/ROUND7_FIRST_TRY.txt'), open('/verif/seeded/ROUND8_FIRST_TRY.txt'), open('/verif/seeded/ROUND9_FIRST_TRY.txt'), open('/verif/seeded/ROUND10_FIRST_TRY.txt'), open('/verif/seeded/ROUND11_FIRST_TRY.txt'), *( [open('/verif/seeded/ROUND12_FIRST_TRY.txt')] if __import__('os').path.exists('/verif/seeded/ROUND12_FIRST_TRY.txt') else [])):
     m = re.match(r"(\S+)\s+own=(\S+)\s*(.*?)\s+others=(.*)", l)
     if not m: continue
     name, own, keys, others = m.groups()
